@@ -18,6 +18,13 @@ BODIES = {
     "typed": [("place", "e", "small-lamp", B("+", V("i"), I(10)), I(26), None),
               ("decl", "Signal", "k", ("lit", "signal-C", B("*", V("i"), I(3)))),
               ("prop", "e", "enable", B(">", B("+", V("a"), V("k")), I(2)))],
+    # iterator projected onto a signal type (documented sugar for a typed literal)
+    "proj": [("place", "e", "small-lamp", B("+", V("i"), I(10)), I(27), None),
+             ("decl", "Signal", "k", ("proj", V("i"), "signal-C")),
+             ("prop", "e", "enable", B(">", B("+", V("a"), V("k")), I(2)))],
+    "proj-typeof": [("place", "e", "small-lamp", B("+", V("i"), I(10)), I(29), None),
+                    ("decl", "Signal", "k", ("proj", B("*", V("i"), I(2)), ("typeof", "a"))),
+                    ("prop", "e", "enable", B(">", B("-", V("a"), V("k")), I(0)))],
     # body calling a function
     "call": [("place", "e", "small-lamp", B("+", V("i"), I(10)), I(28), None),
              ("prop", "e", "enable", B(">", ("call", "scale", [V("a"), V("i")]), I(4)))],
@@ -36,8 +43,8 @@ class C16(core.Check):
     level = "exploration"
     timeout = 300
     rule = ("every (start, stop, step) in {-3..3}^2 x {-2,-1,1,2,3,omitted}, list iterators, bounds given by int "
-            "variables and nested loops x five body kinds (iterator in coordinate / arithmetic / comparison / typed "
-            "literal / function argument); each loop program is compared with its printed unrolling: same multiset of "
+            "variables and nested loops x seven body kinds (iterator in coordinate / arithmetic / comparison / typed "
+            "literal / projection / projection with .type / function argument); each loop program is compared with its printed unrolling: same multiset of "
             "user entities (prototype, tile) and the same circuit condition at every entity for every input value; "
             "non-trivial = the programs place at least one entity whose condition varies")
     assumptions = ["circuit model fv/sim.py", "unrolling printed from our own AST (fv/lang.unroll)"]
@@ -49,7 +56,7 @@ class C16(core.Check):
             for b in rng:
                 for s in (None, -2, -1, 1, 2, 3):
                     bodies = list(BODIES) if tier == "thorough" else \
-                        (["coord", "cmp"] if (a + b) % 2 == 0 else ["arith", "typed"]) + (["call"] if s in (1, -1) else [])
+                        (["coord", "cmp", "proj"] if (a + b) % 2 == 0 else ["arith", "typed", "proj-typeof"]) + (["call"] if s in (1, -1) else [])
                     for body in bodies:
                         out.append(mk(("range", a, b, s), body))
         for lst in ([], [4], [3, 1, 2], [-2, 5, 0, 5 - 4]):
